@@ -40,6 +40,82 @@ def sweep_lines(contl):
     return lines
 
 
+def tail_sweep_lines(thorough):
+    """member-boundary sweeps over the retained tail: the swept member is head t0 t1, so that every 2-byte
+    value (and, with the 3-byte head that makes a 5-byte member, every 1-byte value) is what
+    flush_previous_stream finds when the next member starts - zero, single bits, no end marker included"""
+    heads = "0b0080,0b008061,0b0080616263646566"        # 5-byte member (1-byte tail), 6-byte member, longer
+    first = "F+C" + hx(handmade(4, 24, "raw", 4, b"first")[0])
+    nxt_ok = "F+C0b00806103"                                # a valid catable member
+    nxt_two = "F+C0b0080+C6103+F+C3b"                       # the same cut in two, then a short member
+    nxt_short = "F+C3b"                                     # shorter than the look-ahead
+    nxt_bad = "F+Cffffffffffff"                             # rejected header
+    nxt_meta = "F+C" + hx(handmade(7, 15, "meta", 1, b"M", b"T")[0])
+    contexts = [("N", "new", "-", "64", "-", nxt_ok, "-"),
+                ("N", "new", "-", "p:1,0,2", "1,1,1,1,1,2", nxt_two, first),
+                ("N", "w24", "all", "3", "4", nxt_short, "-"),
+                ("F", "new", "-", "p:2", "5", nxt_bad, first)]
+    if thorough:
+        contexts += [("N", "w30", "-", "1", "2,3", nxt_meta, "-"), ("F", "w15", "-", "p:0,1", "3,2", nxt_ok, first),
+                     ("N", "new", "1,2,4", "p:5,0", "-", nxt_meta, first), ("N", "w22", "-", "2", "-", nxt_short, first)]
+    lines = []
+    for ctx in contexts:
+        for t0 in range(256):
+            lines.append("TSWEEP %s %s %s %s %d %s %s %s %s" % (ctx[0], ctx[1], ctx[2], ctx[3], t0, ctx[4], heads, ctx[5], ctx[6]))
+    return lines
+
+
+def expand_sweep(line, only=None):
+    """the individual RUN lines of one SWEEP / TSWEEP line (all of them, or the sub-case indices in `only`)"""
+    t = line.split()
+    caps = t[4]
+    ncaps = len((caps[2:] if caps.startswith("p:") else caps).split(","))
+    sizes = [] if t[6] == "-" else [int(x) for x in t[6].split(",")]
+    var = [unhx(c) for c in t[7].split(",")]
+    if t[0] == "SWEEP":
+        pre, post = ([] if t[8] == "-" else t[8].split("+")), []
+    else:
+        post, pre = ([] if t[8] == "-" else t[8].split("+")), ([] if t[9] == "-" else t[9].split("+"))
+    extra = sum((len(x) - 1) // 2 for x in pre + post if x.startswith("C") and x != "C-")
+    out, n = [], 0
+    for b1 in range(256):
+        for v in var:
+            if only is None or n in only:
+                m = (bytes([int(t[5]), b1]) + v) if t[0] == "SWEEP" else (v + bytes([int(t[5]), b1]))
+                tasks = pre + ["F"] + ["C" + hx(x) for x in (chunks(m, sizes) if sizes else [m])] + post + ["X"]
+                out.append("RUN %s %s %s %s %d %s" % (t[1], t[2], t[3], caps, fuel_for(len(tasks), extra + len(m), ncaps), " ".join(tasks)))
+            n += 1
+    return out
+
+
+def boundary_scripts(rng, thorough):
+    """member boundaries under every small amount of free output space: 0, 1 or 2 free bytes at every call
+    index (a fresh buffer per call) and every small persistent buffer size, with the next member's
+    look-ahead arriving whole (>= 5 input bytes in that call) as well as cut"""
+    preds = [("new", [handmade(4, 24, "raw", 4, b"first")[0]]), ("new", [unhx("8b0280482e15cae75003")]), ("w30", []), ("w15", []), ("w22", []),
+             ("new", [unhx("0b00806103")])]
+    nexts = [unhx("0b00806103"), handmade(4, 22, "meta", 1, b"M", b"T")[0], handmade(7, 15, "raw", 4, b"hello world")[0],
+             handmade(1, 16, "meta", 0, b"", b"xy")[0], handmade(14, 20, "raw", 4, b"abc")[0], b"\xff" * 6, b"\x00" * 7,
+             bytes(rng.randrange(256) for _ in range(9))]
+    if thorough:
+        nexts += [bytes(rng.randrange(256) for _ in range(rng.randrange(5, 14))) for _ in range(8)]
+    out = []
+    for init, pre in preds:
+        for nx in nexts:
+            ms = pre + [nx, unhx("3b")]
+            for sl in (None, [5], [8], [4, 1], [3, 2], [1] * 16):
+                sls = [sl] * len(ms) if sl is not None else None
+                for k in range(0, 8 if sl is None or len(sl) < 4 else 14):
+                    for free in (0, 1, 2):
+                        out.append(("boundary", mk_run(ms, sls, [BIG] * k + [free] + [BIG] * 40, "N", init, "-", percall=True)))
+            base = sum(len(m) for m in pre)
+            for cap in range(1, 12):
+                for sl in (None, [5], [8]):
+                    out.append(("boundary", mk_run(ms, [sl] * len(ms) if sl is not None else None, [max(1, base - 3 + cap)], rng.choice("NNF"), init, "-")))
+                    out.append(("boundary", mk_run(ms, [sl] * len(ms) if sl is not None else None, [cap], "N", init, "-")))
+    return out
+
+
 def header_forms(rng):
     """every header form built structurally: WBITS form x first block kind, valid and broken"""
     out = []
@@ -71,7 +147,7 @@ def header_forms(rng):
 
 def gen_scripts(run, tools, thorough):
     rng = run.rng
-    scripts = []   # (tag, line)
+    scripts = boundary_scripts(rng, thorough)   # (tag, line)
     forms = header_forms(rng)
     firsts = [("new", []), ("new", [handmade(4, 24, "raw", 4, b"hello")[0]]), ("w30", []), ("w15", []),
               ("new", [unhx("8b0280482e15cae75003")]), ("w24", [handmade(14, 24, "meta", 1, b"xy", b"t")[0]])]
@@ -132,46 +208,55 @@ def check(run):
         return
     contl = continuations(run.rng, thorough)
     sweeps = sweep_lines(contl)
+    tsweeps = tail_sweep_lines(thorough)
+    nprefix = len(sweeps)
+    sweeps = sweeps + tsweeps
     scripts = gen_scripts(run, tools, thorough)
     lines = [l for _, l in scripts]
     run.cov["rule"] = ("sweeps: every 2-byte prefix (65 536) x %d continuations x %d contexts (first/second member, window override, byte-wise feeding, "
-                       "zero/tiny output space, save/restore, C ABI), enumerated inside both drivers and compared by hash; scripts: every WBITS form x "
+                       "zero/tiny output space, save/restore, C ABI), and every retained 2-byte tail value (65 536) x 1-/2-byte tail length x next-member "
+                       "kinds (valid, cut, short, rejected) x contexts at a member boundary, enumerated inside both drivers and compared by hash; scripts: "
+                       "member boundaries with 0/1/2 free output bytes at every call index and every small persistent buffer size x whole/cut look-ahead; every WBITS form x "
                        "ISLAST x first-block kind (metadata MSKIPBYTES 0-3, uncompressed MNIBBLES 4-6, compressed, reserved bit, empty) x bodies x contexts, "
                        "and 1-6 mutated/truncated/random members with random slicing, output sizes, save/restore and API. distinct_nontrivial = distinct "
                        "script lines whose run reaches shift_and_check_new_stream_header or an error/panic outcome (some call shows num_bytes_written set, "
                        "or the final code is not Success), plus sweep sub-cases counted by the drivers"
-                       % (len(contl), len(sweeps) // 256))
-    evals, nbad, corr = 0, 0, []
+                       % (len(contl), nprefix // 256))
+    evals, nbad, nspec, corr = 0, 0, 0, []
     finals, reached = {}, set()
     for prof in profiles:
         # ---- sweeps
         si = tools.impl(sweeps, prof)
         sm = tools.model(sweeps) if prof == "dev" else sm
-        expand = []
+        # sweep lines on which implementation and model disagree, or the spec fails, are expanded into
+        # individual scripts: first the sub-cases that panicked / looped / failed the spec (concrete
+        # failing inputs), then - for lines that only disagree - a few whole lines
+        flagged, differing = [], []
         for l, a, m in zip(sweeps, si, sm):
             ma = m.split(" spec=")[0]
-            if a != ma or "spec=- inv=-" not in m:
-                expand.append(l)
             try:
                 evals += int(a.split()[0][2:])
             except Exception:
                 pass
-        for l in expand[:6]:
-            # expand the sweep line into its individual scripts and treat them like generated ones
-            t = l.split()
-            conts = [unhx(c) for c in t[7].split(",")]
-            pre = [] if t[8] == "-" else t[8].split("+")
-            caps = t[4]
-            ncaps = len((caps[2:] if caps.startswith("p:") else caps).split(","))
-            sizes = [] if t[6] == "-" else [int(x) for x in t[6].split(",")]
-            pre_total = sum((len(x) - 1) // 2 for x in pre if x.startswith("C") and x != "C-")
-            for b1 in range(256):
-                for c in conts:
-                    m = bytes([int(t[5]), b1]) + c
-                    tasks = pre + ["F"] + ["C" + hx(x) for x in (chunks(m, sizes) if sizes else [m])] + ["X"]
-                    lines.append("RUN %s %s %s %s %d %s" % (t[1], t[2], t[3], caps, fuel_for(len(tasks), pre_total + len(m), ncaps), " ".join(tasks)))
-        if expand:
-            run.note("profile %s: %d sweep lines disagree or fail the spec; expanded %d of them" % (prof, len(expand), min(6, len(expand))))
+            if a == ma and "spec=- inv=-" in m:
+                continue
+            idx = set()
+            for src, key in ((a, "bad="), (m, "bad="), (m, "spec="), (m, "inv=")):
+                for tok in src.split():
+                    if tok.startswith(key) and tok != key + "-":
+                        idx |= set(int(x) for x in tok[len(key):].split(","))
+            (flagged if idx else differing).append((l, idx))
+        extra = []
+        for l, idx in flagged[:40]:
+            extra += expand_sweep(l, set(sorted(idx)[:6]))
+        for l, _ in differing[:(2 if flagged else 4)]:
+            extra += expand_sweep(l)[:(600 if flagged else 4000)]
+        have = set(lines)
+        extra = [x for x in dict.fromkeys(extra) if x not in have]
+        lines = extra + lines
+        if flagged or differing:
+            run.note("profile %s: %d sweep lines contain panicking/looping/spec-failing sub-cases, %d more only disagree with the model; expanded into %d scripts"
+                     % (prof, len(flagged), len(differing), len(extra)))
         # ---- scripts
         ia = tools.impl(lines, prof)
         ma = tools.model(lines)
@@ -184,7 +269,8 @@ def check(run):
                 reached.add(l)
             if s.startswith("FAIL") or a.startswith("TOOL"):
                 nbad += 1
-                if nbad <= 5:
+                nspec += 1
+                if nspec <= 5:
                     run.report("spec-violation", write_replay_case("script", l, {"profile": prof, "panic": panic_text(a)}),
                                {"impl": a[:3000], "model": m[:3000], "spec": s},
                                what="stream/finish panicked, left its buffers, broke the result-code contract or made no progress: " + s)
@@ -198,14 +284,16 @@ def check(run):
                 if len(corr) < 4:
                     corr.append(dict(kind="proof-obligation", case=write_replay_case("script", l, {"profile": prof}), observed={"impl": a[:3000], "model": m[:3000], "spec": s},
                                      broken="state invariant Inv (hypothesis of C16_total) violated by a reachable state: " + s))
-        run.note("profile %s: %d sweep lines (%d cases), %d scripts, %d problems" % (prof, len(sweeps), len(sweeps) * 256 * len(contl), len(lines), nbad))
+        run.note("profile %s: %d prefix sweep lines (%d cases), %d tail sweep lines (%d cases), %d scripts, %d problems (%d with a concrete failing input)"
+                 % (prof, nprefix, nprefix * 256 * len(contl), len(tsweeps), len(tsweeps) * 256 * 3, len(lines), nbad, nspec))
     run.cov["evaluations"] = evals
     run.cov["distinct_nontrivial"] = len(reached)
     run.cov["traces_validated_against_impl"] = evals
     run.cov["final_results"] = finals
     run.cov["exhaustive"] = True
-    run.cov["exhaustive_note"] = "all 65 536 two-byte prefixes x the continuation set x contexts enumerated completely (implementation and model, compared by hash; spec applied by the model driver to identical answers)"
-    run.cov["samples"] = [sweeps[17], lines[0][:400], lines[len(lines) // 2][:400], lines[-1][:400]]
+    run.cov["exhaustive_note"] = "all 65 536 two-byte prefixes x the continuation set x contexts, and all 65 536 retained two-byte tails (plus all 256 one-byte tails) x next-member kinds x contexts, enumerated completely (implementation and model, compared by hash; spec applied by the model driver to identical answers)"
+    run.cov["tail_sweep_lines"] = len(tsweeps)
+    run.cov["samples"] = [sweeps[17], tsweeps[0], lines[0][:400], lines[len(lines) // 2][:400], lines[-1][:400]]
     # a broken correspondence / invariant is reported on its own only when the search found no failing input
     if corr and not any(v[2] for v in run.violations):
         for c in corr:
